@@ -90,6 +90,9 @@ def case(g, tier, ci):
     ops = build(g, "s", positions, SR, chans, deviant=dv, has_SR=r.random() < 0.9, amp=r.random() < 0.85, off=r.random() < 0.85)
     # a consistent partner with the same settings for +
     ops += build(g, "t", [1], SR, chans, subs=0.0)
+    if ci % 6 == 1:
+        # the sequence's own sample rate set (again) after it was filled: entries keep the rate they came with
+        ops.append({"op": "sq.setSR", "id": "s", "v": enc(SR * 2)})
     if r.random() < 0.3:
         ops.append({"op": "sq.setSeq", "id": "s", "pos": r.randint(1, 6), "field": "nrep", "v": 2})
     if r.random() < 0.3:
